@@ -464,6 +464,8 @@ type c19ConcRes struct {
 	After   []string `json:"after"`
 	Timeout bool     `json:"timeout"`
 	Exists  bool     `json:"exists"`
+	// paths of the case whose value is an error in the shared value (after the run)
+	ErrPaths []string `json:"err_paths"`
 }
 
 // c19ConcChild: spec = "<par>:<timeout s>:<in.json>:<out.json>"; `par` cases (= contexts) at
@@ -506,6 +508,11 @@ func c19ConcChild(spec string) {
 					cr.After = append(cr.After, got)
 				}
 				cr.Exists = sh.v.Exists()
+				for _, p := range cs.Paths {
+					if q := strings.TrimRight(p, "?!"); q != "" && c19IsErr(sh, q) {
+						cr.ErrPaths = append(cr.ErrPaths, q)
+					}
+				}
 			}
 			mu.Lock()
 			out[cs.ID] = cr
@@ -576,6 +583,16 @@ func c19CheckCase(c *Cfg, cs *c19Case, b []string, cr *c19ConcRes) {
 	cls := c19Class("conc", kinds, cs.Mode)
 	if c19LayoutOnly(diffs, cs) {
 		cls = "conc-format-comment-layout"
+	} else if len(diffs) > 0 && len(diffs2For(cs, b, cr)) == 0 && c19BelowError(diffs, cs, cr) {
+		// transient (the value answers like a fresh one again afterwards) and every
+		// differing call looked at a path at or below a field whose value is an error:
+		// the root cause "arcs below an erroneous field are finalised lazily, readers see
+		// them half evaluated" (known finding)
+		cat := "evaluated"
+		if cs.Mode >= c19ModeUnified {
+			cat = "derived"
+		}
+		cls = "conc-transient-below-error-" + cat
 	}
 	c.Direct(len(diffs) == 0, cls, "a call executed concurrently with others on a shared value returned something else than when executed alone",
 		replay(map[string]any{"diffs": c19First(diffs, 4), "ndiffs": len(diffs), "calls": cs.Calls}))
@@ -606,6 +623,45 @@ func c19CheckCase(c *Cfg, cs *c19Case, b []string, cr *c19ConcRes) {
 	c.mu.Lock()
 	c.counts["calls.total"] += len(cs.Calls)
 	c.mu.Unlock()
+}
+
+func c19IsErr(sh *c19Shared, p string) (bad bool) {
+	defer func() {
+		if recover() != nil {
+			bad = true
+		}
+	}()
+	return sh.v.LookupPath(c19Path(p)).Err() != nil
+}
+
+// diffs2For: indices of calls whose AFTER result differs from the baseline
+func diffs2For(cs *c19Case, b []string, cr *c19ConcRes) []int {
+	var ds []int
+	for k := range cs.Calls {
+		if cr.After[k] != b[k] {
+			ds = append(ds, k)
+		}
+	}
+	return ds
+}
+
+// c19BelowError: every differing call has its path at or below an erroneous path
+func c19BelowError(ds []c19Diff, cs *c19Case, cr *c19ConcRes) bool {
+	under := func(p string) bool {
+		p = strings.TrimRight(p, "?!")
+		for _, e := range cr.ErrPaths {
+			if p == e || strings.HasPrefix(p, e+".") {
+				return true
+			}
+		}
+		return false
+	}
+	for _, d := range ds {
+		if !under(cs.Calls[d.Index].Path) {
+			return false
+		}
+	}
+	return len(ds) > 0
 }
 
 // c19LayoutOnly: every difference is in white space only and the program has comments —
@@ -697,10 +753,13 @@ var c19FrameRe = regexp.MustCompile(`^  (\S+)\(\)$`)
 // its ROOT CAUSE when it is one of the recognised ones, otherwise by the top
 // cuelang.org/go frames of the two conflicting accesses:
 //
-//	race-format-shared-comments  both accesses inside cue/format.Node, on comment nodes
-//	                             (internal/pretty/style sets relative positions in place
-//	                             on comment groups that Value.Syntax results share with
-//	                             the source AST)
+//	race-format-shared-ast       one access inside cue/format.Node writing relative positions
+//	                             in place (internal/pretty/style.setCommentRelPos,
+//	                             ast.SetRelPos) on comment groups / identifiers that the
+//	                             results of Value.Syntax share with the source AST
+//	race-errors-append-shared-list  cue/errors.appendToList appends in place to an error
+//	                             list reachable from the shared value (adt.Validate →
+//	                             CombineErrors → errors.Append)
 //	race-valueerror-msg          adt.(*ValueError).Msg rewrites its args slice in place
 //	race-lazy-finalize-<cat>     at least one access happens inside the evaluator
 //	                             (adt.(*Vertex).Finalize / unify) entered from a cue.Value
@@ -740,14 +799,6 @@ func c19ParseRaces(stderr string, cat string) (classes map[string]string) {
 			secs = append(secs, sec)
 		}
 		sort.Strings(tops)
-		all := func(frag string) bool {
-			for _, s := range secs {
-				if !strings.Contains(s, frag) {
-					return false
-				}
-			}
-			return len(secs) > 0
-		}
 		anyOf := func(frags ...string) bool {
 			for _, s := range secs {
 				for _, f := range frags {
@@ -760,8 +811,10 @@ func c19ParseRaces(stderr string, cat string) (classes map[string]string) {
 		}
 		cls := "race:" + strings.Join(tops, "|")
 		switch {
-		case all("cuelang.org/go/cue/format.Node()") && anyOf("internal/pretty/style.setCommentRelPos()"):
-			cls = "race-format-shared-comments"
+		case anyOf("cuelang.org/go/cue/format.Node()") && anyOf("internal/pretty/style.setCommentRelPos()", "cuelang.org/go/cue/ast.SetRelPos()"):
+			cls = "race-format-shared-ast"
+		case anyOf("cuelang.org/go/cue/errors.appendToList()"):
+			cls = "race-errors-append-shared-list"
 		case len(tops) == 2 && tops[0] == "internal/core/adt.(*ValueError).Msg" && tops[1] == tops[0]:
 			cls = "race-valueerror-msg"
 		case anyOf("internal/core/adt.(*Vertex).Finalize()", "internal/core/adt.(*Vertex).unify()", "internal/core/adt.(*OpContext).unify()"):
